@@ -28,7 +28,8 @@ MIN = {"quick": {"blocked:raises-NotImplemented": 2500, "blocked:no-trace": 2500
 REQUIRED_CELLS = {t: ("class:DynGraph", "class:DynDiGraph", "call:clear", "call:clear_edges", "call:copy",
                       "call:update", "call:add_weighted_edges_from", "call:add_edge", "call:remove_node",
                       "call:in_edges", "frozen:add_interaction", "frozen:clear_edges", "frozen:add_node", "frozen-chain:conversion",
-                      "frozen-chain:json", "second-life:clear", "second-life:clear_edges")
+                      "frozen-chain:json", "second-life:clear", "second-life:clear_edges", "state:single-self-loop",
+                      "state:all-edges-backward")
                   for t in ("quick", "thorough")}
 
 BLOCKED = ("add_edge", "add_edges_from", "add_weighted_edges_from", "remove_edge", "remove_edges_from",
@@ -358,6 +359,14 @@ def run(ctx, dn):
         directed = rng.random() < 0.5
         prog, fam = gen.random_program(rng, lambda: Model(directed, True), directed=directed,
                                        n_ops=rng.randint(1, 8), family=rng.choice(("int", "str")))
+        if k % 7 == 2:
+            prog, directed = [("add", 5, 5, 1, 4)], False               # the whole adjacency is one self-loop
+            ctx.cell("state:single-self-loop")
+        elif k % 7 == 4:
+            # every interaction points to a node inserted earlier
+            prog, directed = [("node", 0, {}), ("node", 1, {}), ("node", 2, {}), ("add", 1, 0, 2, 5),
+                              ("add", 2, 1, 3, None), ("add", 2, 0, 1, 3)], True
+            ctx.cell("state:all-edges-backward")
         G, m, ok = driver.build_accepted(dn, prog, directed)
         if not ok or not m.nontrivial():
             ctx.skip("state not built")
